@@ -174,4 +174,20 @@ def run(tier):
         rep.floor("back edges to the token-pull loop", n, 1)
     else:
         rep.anchor_missing("token-pull loop in Parser::parse")
+    # --- (c) recovery only resumes in a state that the simulation says will accept the lookahead
+    er = f.one(r"^lalrpop_util::state_machine::Parser::<D, I>::error_recovery$")
+    acc = [(bi, t) for bi, t in er.calls() if (callee_of(t) or "").endswith("Parser::<D, I>::accepts")]
+    aggs = [bi for bi, si, s in er.stmts() if s["k"] == "assign" and s["r"]["k"] == "agg" and s["r"].get("adt") == "lalrpop_util::ErrorRecovery"]
+    ok = False
+    if acc and aggs:
+        abi = acc[0][0]
+        for sb, bl in enumerate(er.blocks):
+            t = bl["t"]
+            if t["k"] == "switch" and any(d[0] == "call" and d[2] == abi for d in origins(er, t["o"])):
+                true_t = t["otherwise"]
+                ok = all(er.dominates(true_t, g) for g in aggs) and true_t not in [x for v, x in t["targets"] if v == 0]
+    rep.ob("recovery.resumes-only-where-lookahead-is-accepted", "error_recovery: ErrorRecovery{..} dominated by accepts(..) == true", ok,
+           "error recovery can push the error state without the accepts() simulation having succeeded: with LALR/lane-table tables the parser can "
+           "reduce, fail on the same lookahead and recover again forever", key="recovery-unguarded", file=er.relfile(), line=er.line, fn=er.path)
+    rep.floor("accepts() calls in error_recovery", len(acc), 1)
     return rep
